@@ -29,7 +29,7 @@ var FamilyNames = []string{
 	"chain-prev", "chain-globals", "chain-length", "chain-objstm",
 	"self", "wide-kids", "wide-filters", "deep-array", "deep-dict", "deep-content",
 	"acroform-loop", "xobject-loop", "type3-loop", "action-chain", "pattern-loop",
-	"parent-loop", "contents-array", "colorspace-chain",
+	"parent-loop", "contents-array", "colorspace-chain", "huge-offsets",
 }
 
 func (fam *Family) build() ([]byte, error) {
@@ -254,6 +254,8 @@ func (fam *Family) build() ([]byte, error) {
 		pageExtra = fmt.Sprintf("/CSX %s ", ref(base))
 	case "chain-prev", "chain-objstm":
 		return fam.buildSections(n)
+	case "huge-offsets":
+		return fam.buildHugeOffsets(n), nil
 	default:
 		return nil, fmt.Errorf("unknown family %q", fam.Name)
 	}
@@ -333,4 +335,48 @@ func (fam *Family) buildSections(n int) ([]byte, error) {
 	_ = buf
 	sx := a.xrefStream(9, ents, "/Root 1 0 R", true)
 	return a.finish(sx), nil
+}
+
+// buildHugeOffsets: bytes before the header (so that offsets are shifted) and
+// a cross-reference stream with eight byte fields holding offsets, object
+// stream numbers and indices at the edge of int64.
+func (fam *Family) buildHugeOffsets(n int) []byte {
+	var buf bytes.Buffer
+	buf.WriteString(strings.Repeat("junk before the header\n", 1+n%3))
+	shift := int64(buf.Len())
+	a := newAsm("1.7")
+	a.obj(1, "<< /Type /Catalog /Pages 2 0 R >>")
+	a.obj(2, "<< /Type /Pages /Kids [3 0 R] /Count 1 >>")
+	a.obj(3, "<< /Type /Page /Parent 2 0 R /MediaBox [0 0 100 100] /Resources << >> >>")
+	data, cnt, first := objStmData([]int{20}, map[int]string{20: "<< /V 1 >>"})
+	a.stream(4, fmt.Sprintf("/Type /ObjStm /N %d /First %d", cnt, first), "", data)
+	const maxI = int64(1<<63 - 1)
+	type e struct {
+		num int
+		typ byte
+		f2  uint64
+		f3  uint64
+	}
+	ents := []e{{0, 0, 0, 65535}, {1, 1, uint64(a.offs[1]), 0}, {2, 1, uint64(a.offs[2]), 0}, {3, 1, uint64(a.offs[3]), 0}, {4, 1, uint64(a.offs[4]), 0},
+		{10, 1, uint64(maxI), 0}, {11, 1, uint64(maxI - shift), 0}, {12, 1, uint64(maxI - shift + 1), 0}, {13, 1, 1 << 62, 0}, {14, 1, 1 << 40, 65535},
+		{15, 1, uint64(maxI) + 1, 0}, {16, 1, ^uint64(0), 0},
+		{20, 2, 4, 0}, {21, 2, 4, uint64(maxI)}, {22, 2, 1<<24 - 1, 0}, {23, 2, uint64(maxI), uint64(maxI)}, {24, 2, 24, 0}, {25, 3, 7, 7}}
+	var body bytes.Buffer
+	var index []string
+	be := func(v uint64) { body.Write([]byte{byte(v >> 56), byte(v >> 48), byte(v >> 40), byte(v >> 32), byte(v >> 24), byte(v >> 16), byte(v >> 8), byte(v)}) }
+	p := a.pos()
+	ents = append(ents, e{9, 1, uint64(p), 0})
+	for _, x := range ents {
+		index = append(index, fmt.Sprintf("%d 1", x.num))
+		body.WriteByte(x.typ)
+		be(x.f2)
+		be(x.f3)
+	}
+	prev := ""
+	if fam.Cyc {
+		prev = fmt.Sprintf("/Prev %d /XRefStm %d ", maxI-int64(n), maxI)
+	}
+	a.stream(9, fmt.Sprintf("/Type /XRef /Size 30 /W [1 8 8] /Index [%s] /Root 1 0 R %s", strings.Join(index, " "), prev), "", body.Bytes())
+	buf.Write(a.finish(p))
+	return buf.Bytes()
 }
